@@ -12,12 +12,23 @@
 (*   batch = inter; the fixed reference is left unchanged; no panic;         *)
 (*   "epoch": the same deliveries stamped 1.7e9 s + t (interleaved run):     *)
 (*   none / some within 25 m as well (time origin is not part of a history). *)
+(*   "mov": the same deliveries under a MOVING receiver reference (the       *)
+(*   callback of jet1090 --update-position, Trajectory!RefStep): none / some *)
+(*   within 25 m as long as the aircraft's surface reports were all          *)
+(*   delivered while the reference in force was within 40 NM (the premise,   *)
+(*   stated for the reference actually used; once it failed for an aircraft, *)
+(*   that aircraft is no longer judged in this run: a surface position taken *)
+(*   one zone away poisons its later answers by design).                     *)
 (* SELFCHECK (generator guard, a tool error, never a verdict): the premise   *)
 (*   measured by the ruler -- implied ground speed <= 700 kt, surface        *)
 (*   reports within 40 NM of the receiver reference.                         *)
 (* DESIGN-MISMATCH (informative, evidence key design_conformance): for the   *)
 (*   one-dimensional scenarios the answers are also compared with the        *)
 (*   design-level model of Trajectory.tla under the constants of the cfg.    *)
+(*   REF-RULE (same status): the reference logged after every call of the    *)
+(*   moving run is RefStep's: the position just attached (bit-identical) if  *)
+(*   the report is airborne, was given a position and the predicate holds,   *)
+(*   else the reference in force before.                                     *)
 EXTENDS Trajectory, TraceBase
 
 C == INSTANCE CPR
@@ -55,6 +66,16 @@ WhyRep(ev) ==
   ELSE IF Has(ev, "epoch") /\ WhyOut(ev.epoch, Tight(ev)) # "" THEN WhyOut(ev.epoch, Tight(ev)) \o "_epoch_time_base"
   ELSE ""
 
+\* moving reference: premise and verdict
+MovTaints(ev) == Has(ev, "mov") /\ ev.kind = 1 /\ ev.mdref > NM40MM
+WhyMov(ev, tainted) ==
+  IF ~Has(ev, "mov") \/ tainted \/ ~Bound(ev) THEN ""
+  ELSE IF WhyOut(ev.mov, Tight(ev)) # "" THEN WhyOut(ev.mov, Tight(ev)) \o "_moving_reference"
+  ELSE ""
+RefBits(r) == IF r.o = "some" THEN <<r.latb, r.lonb>> ELSE <<>>
+RefRule(prev, ev) ==
+  IF ev.kind = 0 /\ ev.mov.o = "some" /\ ev.mlow THEN <<ev.mov.latb, ev.mov.lonb>> ELSE prev
+
 WhyScen(ev) ==
   IF ~ev.batch_ok THEN "panic"
   ELSE IF ~ev.refkept THEN "reference_changed"
@@ -69,21 +90,29 @@ UofMicro(m) == LET q == m \div 187500
 Observed(r) == IF r.o = "some" THEN UofMicro(r.lat) ELSE NONE
 DesignRep(ev) == [ac |-> ev.ac, kind |-> KindName(ev.kind), par |-> ev.par, ts |-> ev.ts \div 1000, lat |-> ev.u]
 
-VARIABLES l, st, ref
-Init == l = 1 /\ st = [a \in 0..4 |-> Fresh] /\ ref = NONE
+VARIABLES l, st, ref, taint, mref
+Init == l = 1 /\ st = [a \in 0..4 |-> Fresh] /\ ref = NONE /\ taint = {} /\ mref = <<>>
 Next ==
   /\ l <= NRec /\ l' = l + 1
   /\ LET ev == Rec[l] IN
      IF ev.e = "scen"
      THEN /\ st' = [a \in 0..4 |-> Fresh] /\ ref' = ev.refu
+          /\ taint' = {} /\ mref' = (IF Has(ev, "ref0") THEN RefBits(ev.ref0) ELSE <<>>)
           /\ IF SelfOk(ev) THEN TRUE ELSE PrintT(<<"SELFCHECK", l>>)
           /\ LET w == WhyScen(ev) IN IF w = "" THEN TRUE ELSE PrintT(<<"REJECT", l, w>>)
      ELSE /\ ref' = ref
-          /\ LET w == WhyRep(ev) IN IF w = "" THEN TRUE ELSE PrintT(<<"REJECT", l, w>>)
+          /\ taint' = (IF MovTaints(ev) THEN taint \cup {ev.ac} ELSE taint)
+          /\ LET w0 == WhyRep(ev)
+                 w == IF w0 # "" THEN w0 ELSE WhyMov(ev, ev.ac \in taint')
+             IN IF w = "" THEN TRUE ELSE PrintT(<<"REJECT", l, w>>)
+          /\ IF Has(ev, "mov")
+             THEN /\ mref' = RefBits(ev.mref)
+                  /\ IF RefBits(ev.mref) = RefRule(mref, ev) THEN TRUE ELSE PrintT(<<"REF-RULE", l>>)
+             ELSE mref' = mref
           /\ IF ev.u = NONE \/ ev.ac \notin 0..4
              THEN st' = st
              ELSE LET res == DesignStepR(st[ev.ac], DesignRep(ev), ref) IN
                   /\ st' = [st EXCEPT ![ev.ac] = res.st]
                   /\ IF res.out = Observed(ev.inter) THEN TRUE ELSE PrintT(<<"DESIGN-MISMATCH", l>>)
-Spec == Init /\ [][Next]_<<l, st, ref>>
+Spec == Init /\ [][Next]_<<l, st, ref, taint, mref>>
 =============================================================================
